@@ -214,16 +214,19 @@ func makeToken(t Tok, hmacKey []byte) string {
 		if t.Signer == "confusion" {
 			key = []byte(rsaPubPEM) // the public RSA key used as an HMAC secret
 		}
+		if t.Signer == "empty" {
+			key = []byte{} // the HMAC secret of a configuration that has none
+		}
 	case "RS":
 		method = jwt.SigningMethodRS256
 		key = rsaConf
-		if t.Signer == "other" || t.Signer == "confusion" {
+		if t.Signer == "other" || t.Signer == "confusion" || t.Signer == "empty" {
 			key = rsaOther
 		}
 	case "ES":
 		method = jwt.SigningMethodES256
 		key = ecConf
-		if t.Signer == "other" || t.Signer == "confusion" {
+		if t.Signer == "other" || t.Signer == "confusion" || t.Signer == "empty" {
 			key = ecOther
 		}
 	default:
@@ -336,7 +339,9 @@ func newWorld(c Conf, tenants []config.TenantConfig, endpoints []string) (*world
 	if err != nil {
 		return nil, err
 	}
-	n2, err := psim.StartNode(psim.NodeOpts{ID: "n2", Auth: ac, Tenants: tenants, Join: []string{n1.GossipAddr()}})
+	// the second node's admin port is open: a request that the first node forwards to it (?forward=n2)
+	// before authenticating it would be answered
+	n2, err := psim.StartNode(psim.NodeOpts{ID: "n2", Auth: ac, AdminAuth: &auth.Config{}, Tenants: tenants, Join: []string{n1.GossipAddr()}})
 	if err != nil {
 		return nil, err
 	}
@@ -439,7 +444,7 @@ func (w *world) send(port, route string, h Hdr, token string, tgt Tgt, tenant st
 
 var (
 	algs    = []string{"HS", "RS", "ES", "none"}
-	signers = []string{"conf", "other", "confusion", "unsigned"}
+	signers = []string{"conf", "other", "confusion", "unsigned", "empty"}
 	tampers = []string{"none", "header", "payload", "sig"}
 	exps    = []string{"absent", "past", "future"}
 	nbfs    = []string{"absent", "past", "future"}
@@ -728,6 +733,14 @@ func main() {
 			}
 			for _, ep := range []string{"e", "e1", "other"} {
 				endpointCase(w, "GET /_piko/v1/tcp/"+ep, t, Tgt{Path: ep}, emit)
+				// the path names the endpoint that is routed to, whatever Host and header say
+				for _, host := range hosts {
+					for _, hd := range hosts {
+						if host != "" || hd != "" {
+							endpointCase(w, "GET /_piko/v1/tcp/"+ep, t, Tgt{Host: host, Header: hd, Path: ep}, emit)
+						}
+					}
+				}
 				listenCase(w, ep, t, emit)
 			}
 		}
